@@ -81,3 +81,39 @@ func VH_C16_conserve() {
 	}
 	vrt.Reach("end")
 }
+
+// VH_C16_deep_stack: one sample whose stack is 510..513 or 700 frames deep (the writer caps the tree level
+// field at 511), two sample types with symbolic values: weight is still conserved - the sum of self values over
+// all nodes equals the sample value, every node's total equals self plus children, for both types.
+func VH_C16_deep_stack() {
+	vrt.Unwind(300)
+	vrt.ConcreteUnwind(2000000)
+	vrt.Steps(80000000)
+	depth := []int{510, 511, 512, 513, 700}[vrt.Choice("stack-depth", 5)]
+	p := &pprof_proto.Profile{SampleType: []*pprof_proto.ValueType{{Type: "t0", Unit: "count"}, {Type: "t1", Unit: "count"}}}
+	smp := &pprof_proto.Sample{}
+	for d := 0; d < depth; d++ {
+		fn := &pprof_proto.Function{ID: uint64(d + 1), Name: "f" + string(rune('a'+d%26)) + string(rune('a'+(d/26)%26))}
+		smp.Location = append(smp.Location, &pprof_proto.Location{Line: []pprof_proto.Line{{Function: fn}}})
+	}
+	v0, v1 := vrt.Int64("value-0"), vrt.Int64("value-1")
+	for _, v := range []int64{v0, v1} {
+		vrt.Assume(v >= 0)
+		vrt.Assume(v < 1<<40)
+	}
+	smp.Value = []int64{v0, v1}
+	p.Sample = []*pprof_proto.Sample{smp}
+	_, tree := postProcessProf(p)
+	for t, want := range []int64{v0, v1} {
+		var selfSum, roots int64
+		for _, nd := range tree {
+			selfSum += nd.values[t].self
+			if nd.parentId == 0 {
+				roots += nd.values[t].total
+			}
+		}
+		vrt.Assert(selfSum == want, "self-values-add-up-to-the-sample-value")
+		vrt.Assert(roots == want, "root-totals-equal-the-sample-value")
+	}
+	vrt.Reach("end")
+}
